@@ -255,7 +255,7 @@ func (pe *programExecutor) executeReadSector(instr *rhp3.InstrReadSector, log *z
 	switch {
 	case length == 0:
 		return nil, nil, fmt.Errorf("read length cannot be 0")
-	case offset+length > rhp2.SectorSize:
+	case offset > rhp2.SectorSize || length > rhp2.SectorSize-offset: // offset+length may wrap around
 		return nil, nil, fmt.Errorf("read length %v is out of bounds", length)
 	case instr.ProofRequired && (offset%rhp2.LeafSize != 0 || length%rhp2.LeafSize != 0):
 		return nil, nil, fmt.Errorf("read offset (%d) and length (%d) must be multiples of %d", offset, length, rhp2.LeafSize)
